@@ -1697,3 +1697,68 @@ def unfuse_factories(tree, resolve_class):
     if changed:
         _link(tree)
     return changed
+
+
+def restore_private_predicates(tree, missing, resolve_def, resolve_class):
+    """a one-argument private predicate of the reference tree (`_is_modifier(z)`) that is gone from the module under its
+    name may live on (a) as a function imported from another module of the package under the name without the underscore,
+    or (b) as a property of the two category classes read as `z.is_modifier`.  Either way the module is read as if it
+    still defined `_name` and called it: the rules speak about the predicate by that name.
+    missing: names to look for; resolve_def(name) -> FunctionDef imported under that name or None; resolve_class(name)."""
+    done = []
+    for ref in missing:
+        if not ref.startswith('_') or ref.startswith('__'):
+            continue
+        pub = ref[1:]
+        if any(isinstance(s, FUNCS) and s.name == ref for s in tree.body):
+            continue
+        new_def = None
+        calls = [n for n in ast.walk(tree) if isinstance(n, ast.Call) and isinstance(n.func, ast.Name) and n.func.id == pub]
+        attrs = [n for n in ast.walk(tree) if isinstance(n, ast.Attribute) and n.attr == pub and isinstance(n.ctx, ast.Load)]
+        if calls and not any(isinstance(s, FUNCS) and s.name == pub for s in tree.body):
+            d = resolve_def(pub)
+            if isinstance(d, ast.FunctionDef) and len(d.args.args) == 1 and not d.decorator_list:
+                new_def = _clone(d)
+                new_def.name = ref
+                for c in calls:
+                    c.func.id = ref
+        elif attrs and not calls:
+            atom, fun = resolve_class('Atom'), resolve_class('Functor')
+
+            def prop(cls):
+                for s in (cls.body if cls is not None else []):
+                    if isinstance(s, ast.FunctionDef) and s.name == pub and any(isinstance(d_, ast.Name) and d_.id == 'property' for d_ in s.decorator_list):
+                        body = [x for x in s.body if not _is_doc(x)]
+                        if len(body) == 1 and isinstance(body[0], ast.Return) and body[0].value is not None and len(s.args.args) == 1:
+                            return s.args.args[0].arg, body[0].value
+                return None
+            pa, pf = prop(atom), prop(fun)
+            if pa is not None and pf is not None and isinstance(pa[1], ast.Constant) and pa[1].value is False:
+                z = 'z'
+                fbody = _Subst(names={pf[0]: ast.Name(id=z, ctx=ast.Load())}).visit(_clone(pf[1]))
+                test = ast.BoolOp(op=ast.And(), values=[ast.Attribute(value=ast.Name(id=z, ctx=ast.Load()), attr='is_functor', ctx=ast.Load()), fbody])
+                new_def = ast.FunctionDef(name=ref, args=ast.arguments(posonlyargs=[], args=[ast.arg(arg=z)], kwonlyargs=[], kw_defaults=[], defaults=[]),
+                                          body=[ast.Return(value=test)], decorator_list=[])
+                if hasattr(new_def, 'type_params') or True:
+                    new_def.type_params = []
+
+                class _A(ast.NodeTransformer):
+                    def visit_Attribute(self_, n):
+                        self_.generic_visit(n)
+                        if n.attr == pub and isinstance(n.ctx, ast.Load):
+                            return ast.copy_location(ast.Call(func=ast.Name(id=ref, ctx=ast.Load()), args=[n.value], keywords=[]), n)
+                        return n
+                _A().visit(tree)
+        if new_def is not None:
+            first_fn = next((i for i, s in enumerate(tree.body) if isinstance(s, FUNCS + (ast.ClassDef,))), len(tree.body))
+            ln = tree.body[first_fn].lineno if first_fn < len(tree.body) else 1
+            for n in ast.walk(new_def):
+                if isinstance(n, (ast.stmt, ast.expr)):
+                    n.lineno = n.end_lineno = ln
+                    n.col_offset = n.end_col_offset = 0
+            tree.body.insert(first_fn, new_def)
+            ast.fix_missing_locations(tree)
+            done.append(ref)
+    if done:
+        _link(tree)
+    return done
